@@ -564,8 +564,11 @@ class Project(NamedItem):
         show_progress = n_samples > 1 and logger.getEffectiveLevel() <= logging.INFO
 
         if parallel:
-            fcn = functools.partial(_run_sampled_sim, proj=self, parset=parset, progset=progset, progset_instructions=progset_instructions, result_names=result_names, max_attempts=max_attempts)
-            results = parallel_progress(fcn, n_samples, show_progress=show_progress, num_workers=num_workers)
+            # Worker processes inherit the random state of this process, so every sample is given its own seed
+            # (drawn here) - otherwise samples handled by different workers would use identical random draws
+            seeds = list(np.random.randint(0, 2**32, size=(n_samples, 4), dtype=np.uint32))
+            fcn = functools.partial(_run_sampled_sim, self, parset, progset, progset_instructions, result_names, max_attempts)
+            results = parallel_progress(fcn, seeds, show_progress=show_progress, num_workers=num_workers)
         elif show_progress:
             # Print the progress bar if the logging level was INFO or lower
             # This means that the user can still set the logging level higher e.g. WARNING to suppress output from Atomica in general
@@ -715,7 +718,7 @@ class Project(NamedItem):
         self.__dict__ = P.__dict__
 
 
-def _run_sampled_sim(proj, parset, progset, progset_instructions: list, result_names: list, max_attempts: int = None):
+def _run_sampled_sim(proj, parset, progset, progset_instructions: list, result_names: list, max_attempts: int = None, seed=None):
     """
     Internal function to run simulation with sampling
 
@@ -736,11 +739,15 @@ def _run_sampled_sim(proj, parset, progset, progset_instructions: list, result_n
     :param progset_instructions: A list of instructions to run against a single sample
     :param result_names: A list of result names (strings)
     :param max_attempts: Maximum number of sampling attempts before raising an error
+    :param seed: Optionally reseed the global random number generator before sampling (used when running on parallel workers)
     :return: A list of results that either contains 1 result, or the same number of results as instructions
 
     """
 
     from .model import BadInitialization  # avoid circular import
+
+    if seed is not None:
+        np.random.seed(seed)
 
     if max_attempts is None:
         max_attempts = 50
